@@ -166,18 +166,11 @@ theorem prim_eof (inp : Str) (pos : Nat) :
     have := List.getElem?_eq_none_iff.mp h
     simp [this]
 
-/-- no primitive moves backwards -/
-theorem prim_pos_monotone (inp : Str) (pos q : Nat) (v : Val) (p : Prim)
-    (h : p.run inp pos = some (q, v)) : pos ≤ q := by
-  cases p <;> simp only [Prim.run] at h
-  · split at h <;> simp at h; omega
-  · split at h <;> simp at h; omega
-  · split at h
-    · split at h <;> simp at h; omega
-    · simp at h
-  · split at h <;> simp at h; omega
-  · split at h <;> simp at h; omega
-  · split at h <;> simp at h; omega
+/-- no parser ever moves backwards: a successful `process` returns a position ≥ the one it was
+given.  Unconditional — tags, function errors, any rule table, any fuel. -/
+theorem run_never_moves_backwards (rules : List Term) (inp : Str) (f : Nat) (t : Term) (pos p : Nat) (v : Val)
+    (σ σ' : St) (h : run rules inp f t pos σ = (.ok p v, σ')) : pos ≤ p :=
+  (pos_mono_all rules inp f).1 t pos σ p v σ' h
 
 /-! ### consequences read off the semantics (what the property's sentence lists) -/
 
